@@ -65,17 +65,20 @@ class _AsForged(threading.local):
 
     def __get__(self, instance, owner):
         obj = owner if instance is None else instance
-        if obj in self.currently_computing:
+        # keyed on identity: the guard must not depend on obj's own __hash__
+        # and __eq__ (obj stays alive for the duration of the entry)
+        key = id(obj)
+        if key in self.currently_computing:
             if _verif.enabled:
                 _verif.emit('GuardHit', obj=id(obj))
             raise AttributeError
         try:
-            self.currently_computing.add(obj)
+            self.currently_computing.add(key)
             if _verif.enabled:
                 _verif.emit('GuardAdd', obj=id(obj))
             sig = signature(obj)
         finally:
-            self.currently_computing.discard(obj)
+            self.currently_computing.discard(key)
             if _verif.enabled:
                 _verif.emit('GuardDiscard', obj=id(obj))
         return sig
